@@ -544,7 +544,7 @@ fn collect_runtime_types(
             }
             // The vtable struct of a trait used as `dyn` spells out the method signatures,
             // whether or not an impl (whose functions would mention the same types) exists.
-            for trait_name in collect_dyn_requirements(file).traits.iter() {
+            for trait_name in collect_dyn_requirements(goenv, file).traits.iter() {
                 for (_, params, ret_ty) in trait_method_sigs(goenv, trait_name) {
                     for ty in params.iter() {
                         self.collect_type(ty);
@@ -766,7 +766,7 @@ fn dyn_wrap_go_name(trait_name: &str, for_ty: &tast::Ty, method_name: &str) -> S
     ))
 }
 
-fn collect_dyn_requirements(file: &anf::File) -> DynRequirements {
+fn collect_dyn_requirements(goenv: &GlobalGoEnv, file: &anf::File) -> DynRequirements {
     fn collect_ty(req: &mut DynRequirements, ty: &tast::Ty) {
         match ty {
             tast::Ty::TDyn { trait_name } => {
@@ -931,6 +931,32 @@ fn collect_dyn_requirements(file: &anf::File) -> DynRequirements {
         }
         collect_ty(&mut req, &f.ret_ty);
         collect_aexpr(&mut req, &f.body);
+    }
+    // The emitted type definitions spell out their field types, whether or not an expression of
+    // that type occurs in the program.
+    for (_, def) in goenv.structs() {
+        for (_, ty) in &def.fields {
+            collect_ty(&mut req, ty);
+        }
+    }
+    for (_, def) in goenv.enums() {
+        for (_, tys) in &def.variants {
+            for ty in tys {
+                collect_ty(&mut req, ty);
+            }
+        }
+    }
+    // ... and the vtable struct of a trait spells out its method signatures
+    let mut done = 0;
+    while done < req.traits.len() {
+        let trait_name = req.traits[done].clone();
+        done += 1;
+        for (_, params, ret_ty) in trait_method_sigs(goenv, &trait_name) {
+            for ty in params.iter() {
+                collect_ty(&mut req, ty);
+            }
+            collect_ty(&mut req, &ret_ty);
+        }
     }
     req
 }
@@ -2544,7 +2570,7 @@ pub fn go_file(
         }))
         .collect::<Vec<_>>();
     let file = anf::anf_renamer::rename(file, type_names.into_iter());
-    let dyn_req = collect_dyn_requirements(&file);
+    let dyn_req = collect_dyn_requirements(&goenv, &file);
 
     let mut toplevels = gen_type_definition(&goenv, &closures_used_as_fn_values(&file));
     toplevels.extend(gen_dyn_type_definitions(&goenv, &dyn_req));
